@@ -266,15 +266,31 @@ def check_solver(idx: Index, rep: Report) -> None:
         else:
             r.ok(f.fq, f"{f.loc} every enqueue request reaches the worklist")
     f = idx.func(DF, "DataFlowSolver.initialize_and_run")
-    t = unparse(f.node)
-    ok = "for analysis in self._analyses:\n            analysis.initialize(op)" in t and "while self._worklist:" in t and "analysis.visit(point)" in t and ("self._worklist.popleft()" in t or "self._worklist.pop()" in t)
-    cfg = CFG(f.node)
-    ws = [w for w in walk_local(f.node) if isinstance(w, ast.While)]
-    drained = len(ws) == 1 and unparse(ws[0].test) == "self._worklist" and not any(isinstance(x, (ast.Break, ast.Return)) for x in ast.walk(ws[0]))
-    if ok and drained:
+    # the function and the private methods of the class it calls (one level), as written
+    bodies = [f.raw_node]
+    for c in calls_in(f.raw_node):
+        if isinstance(c.func, ast.Attribute) and unparse(c.func.value) == "self" and f.cls is not None and c.func.attr.startswith("_"):
+            h = f.cls.method(c.func.attr)
+            if h is not None:
+                bodies.append(h.raw_node)
+    inits = []
+    whiles = []
+    for bd in bodies:
+        prm = [a.arg for a in bd.args.args[1:]]
+        for w in walk_local(bd):
+            if isinstance(w, ast.For) and unparse(w.iter) == "self._analyses" and isinstance(w.target, ast.Name):
+                if any(call_attr(c) == "initialize" and unparse(c.func.value) == w.target.id and len(c.args) == 1 and unparse(c.args[0]) in prm for c in calls_in(w)):  # type: ignore[attr-defined]
+                    inits.append(w)
+            if isinstance(w, ast.While):
+                whiles.append(w)
+    drains = [w for w in whiles if unparse(w.test) in ("self._worklist", "len(self._worklist) > 0", "len(self._worklist) != 0") and any(call_attr(c) in ("popleft", "pop") and unparse(c.func.value) == "self._worklist" for c in calls_in(w)) and any(call_attr(c) == "visit" for c in calls_in(w))]  # type: ignore[attr-defined]
+    early = [w for w in drains if any(isinstance(x, (ast.Break, ast.Return)) for x in ast.walk(w))]
+    if inits and drains and not early:
         r.ok(f.fq, f"{f.loc} initialise all analyses, then visit until the worklist is empty")
+    elif early:
+        r.fail(f.fq, Finding("C25.R4", f.fq, "run-loop", "the loop that visits the work items can be left (break / return) before the worklist is empty: the solver stops before the fixpoint", f.loc))
     else:
-        r.fail(f.fq, Finding("C25.R4", f.fq, "run-loop", "initialize_and_run must initialise every analysis and visit work items until the worklist is empty (no early exit)", f.loc))
+        r.fail(f.fq, Finding("C25.R4", f.fq, "run-loop-unrecognised", f"initialize_and_run: initialisation of every analysis {'found' if inits else 'not found'}, drain loop over self._worklist {'found' if drains else 'not found'} (in the function or the private methods it calls)", f.loc))
     f, b = body(DF, "ChangeResult.__or__")
 
     def _or_ok(fn_node) -> bool:
